@@ -711,3 +711,13 @@ func withCloneSegment(r *sim.Rand, ops []sim.Op, avoid map[string]bool) []sim.Op
 	out = append(out, ops[b:]...)
 	return out
 }
+
+// resyncFlags: whether a REP/SEP that is refused for capacity has already updated the
+// tracked widths is not fixed by any property (the pinned tree updates first, an equally
+// legitimate implementation emits first); after such a refusal the model adopts whatever
+// the emitter tracks.
+func resyncFlags(m *asmModel, e *asm.Emitter, op sim.Op, out asmOutcome) {
+	if out.Refused == "cap" && (op.K == "rep" || op.K == "sep") {
+		m.Flags = uint8(e.Flags())
+	}
+}
